@@ -57,3 +57,59 @@ C[MC + '_parse_charge_adducts_mass@str'] = dict(
                                     "if precision is None else round(psum(lambda a: _parse_adduct_mass(a, None, monoisotopic), adducts.split(','), len(adducts.split(','))), some(precision))))")],
     invariants={0: [('entries-so-far', "m == psum(lambda a: _parse_adduct_mass(a, None, monoisotopic), adducts, _k0)")]},
 )
+
+
+# ---------------------------------------------------------------- one alternative: the dispatch of _parse_mod_mass (C10, "generic forms behave consistently")
+RECORDS['NumOrText'] = dict(kind='int', s='str', i='int', f='real')
+UNIONS = {'NumOrText': {'str': 0, 'int': 1, 'float': 2}}
+MD = 'peptacular.mods.mod_db:'
+C['peptacular.util:convert_type'] = dict(params=dict(val='str'), returns='NumOrText', pure=True, trusted=True,
+                                         bounded_by='int() / float() of the text, else the text itself: bounded/C01.py (values)',
+                                         ensures=[('a-text-stays-itself', 'implies(result.kind == 0, result.s == val)'),
+                                                  ('kind', '0 <= result.kind and result.kind <= 2')])
+from contracts.moddb import PREFIX_TESTS as _PT
+for _f, _p in dict(is_gno_str='gno_str', is_xlmod_str='xlmod_str', is_resid_str='resid_str', is_psi_mod_str='psi_str', is_unimod_str='unimod_str').items():
+    C[MD + _f] = dict(params={_p: 'str'}, returns='bool', pure=True, trusted=True,
+                      bounded_by=('pure prefix test: proved against this same contract in contracts/moddb.py (C10)' if _f in _PT else
+                                  'prefix test OR membership in the vocabulary (id / name): bounded/C10.py'),
+                      ensures=([('prefix-test', 'result == (' + ' or '.join("iprefix(%s, '%s')" % (_p, x) for x in _PT[_f][1]) + ')')] if _f in _PT else []))
+for _v in ('gno', 'xlmod', 'resid', 'psi', 'unimod'):
+    C[MD + 'parse_%s_mass' % _v] = dict(params=dict(mod_str='str', monoisotopic='bool', precision='Optional[int]'), returns='real', pure=True, trusted=True,
+                                        raises={'ValueError': None}, bounded_by='proved against its own contract in contracts/modresolve.py (C10)', ensures=[])
+for _f in ('_parse_glycan_mass_from_proforma_str', '_parse_chem_mass_from_proforma_str'):
+    C[MC + _f] = dict(params=dict(mod='str', monoisotopic='bool', precision='Optional[int]'), returns='real', pure=True, trusted=True, raises={'ValueError': None},
+                      bounded_by='Glycan: / Formula: text -> mass: contracts/glycanmass.py, contracts/chemmass.py for the dictionary forms; text forms bounded/C15.py', ensures=[])
+C[MC + '_parse_obs_mass_from_proforma_str'] = dict(params=dict(mod='str', precision='Optional[int]'), returns='real', pure=True, trusted=True, raises={'ValueError': None},
+                                                   bounded_by='Obs: text -> number: bounded/C10.py (generic forms)', ensures=[])
+_B = "(mod.split('#')[0] if ('#' in mod) else mod)"
+_TAGONLY = "('#' in mod) and mod.startswith('#')"
+_CV = 'convert_type(' + _B + ')'
+_L = _B + '.lower()'
+_CASES = [
+    ('glycan', 'iprefix(' + _B + ", 'glycan:')", '_parse_glycan_mass_from_proforma_str(' + _B + ', monoisotopic, precision)'),
+    ('gno', 'is_gno_str(' + _B + ')', 'parse_gno_mass(' + _B + ', monoisotopic, precision)'),
+    ('xlmod', 'is_xlmod_str(' + _B + ')', 'parse_xlmod_mass(' + _B + ', monoisotopic, precision)'),
+    ('resid', 'is_resid_str(' + _B + ')', 'parse_resid_mass(' + _B + ', monoisotopic, precision)'),
+    ('info', 'iprefix(' + _B + ", 'info:')", None),
+    ('psi-mod', 'is_psi_mod_str(' + _B + ')', 'parse_psi_mass(' + _B + ', monoisotopic, precision)'),
+    ('unimod', 'is_unimod_str(' + _B + ')', 'parse_unimod_mass(' + _B + ', monoisotopic, precision)'),
+    ('formula', 'iprefix(' + _B + ", 'formula:')", '_parse_chem_mass_from_proforma_str(' + _B + ', monoisotopic, precision)'),
+    ('obs', 'iprefix(' + _B + ", 'obs:')", '_parse_obs_mass_from_proforma_str(' + _B + ', precision)'),
+]
+_TEXT = 'not (' + _TAGONLY + ') and ' + _CV + '.kind == 0'
+_ens = [('a-bare-localisation-tag-weighs-nothing', 'implies(' + _TAGONLY + ', result is not None and some(result) == 0)'),
+        ('an-integer-text-is-its-own-mass', 'implies(not (' + _TAGONLY + ') and ' + _CV + '.kind == 1, result is not None and some(result) == ' + _CV + '.i)'),
+        ('a-decimal-text-is-its-own-mass-rounded-on-request',
+         'implies(not (' + _TAGONLY + ') and ' + _CV + '.kind == 2, result is not None and some(result) == (' + _CV + '.f if precision is None else round(' + _CV + '.f, some(precision))))')]
+_earlier = []
+for _lab, _cond, _val in _CASES:
+    _g = _TEXT + ''.join(' and not (' + e + ')' for e in _earlier) + ' and ' + _cond
+    if _val is None:
+        _ens.append(('%s-text-has-no-mass' % _lab, 'implies(' + _g + ', result is None)'))
+    else:
+        _ens.append(('%s-text-goes-to-its-resolver-without-the-tag' % _lab, 'implies(' + _g + ', result is not None and some(result) == ' + _val + ')'))
+    _earlier.append(_cond)
+_ens.append(('anything-else-has-no-mass', 'implies(' + _TEXT + ''.join(' and not (' + e + ')' for e in _earlier) + ', result is None)'))
+C[MC + '_parse_mod_mass@str'] = dict(
+    params=dict(mod='str', monoisotopic='bool', precision='Optional[int]'), returns='Optional[real]', pure=True,
+    raises={'ValueError': None}, raises_inexact=True, ensures=_ens)
